@@ -695,3 +695,10 @@ const _: () = {
     routing_with_8_fangs!(R1, R2, R3, R4, R5, R6, R7, R8, R9, R10, R11);
     routing_with_8_fangs!(R1, R2, R3, R4, R5, R6, R7, R8, R9, R10, R11, R12);
 };
+
+#[cfg(ohkami_verif)]
+pub fn __verif_apply_handlers(o: &mut Ohkami, item: HandlerSet) { RoutingItem::apply(item, &mut o.router) }
+#[cfg(ohkami_verif)]
+pub fn __verif_apply_by(o: &mut Ohkami, item: ByAnother) { RoutingItem::apply(item, &mut o.router) }
+#[cfg(ohkami_verif)]
+pub fn __verif_apply_dir(o: &mut Ohkami, item: Dir) { RoutingItem::apply(item, &mut o.router) }
